@@ -4,8 +4,10 @@
    (e) document level: the element structure the writer spells out (Model.SkrDoc.skr_val, built with the reader's own _store_element)
    is read by the loader (response_of_val) as the same response - every bundle, key, signature, both policies, all numbers, times and
    durations - for every well-formed response of any size (C11_skr_roundtrip).
-   NOT proved: that printing that structure as text and reading the text gives the structure back (the two text-level halves are
-   Model.Xml's reader - proved total and order-independent - and the writer's f-strings, tied by Bridge11Doc and by correspondence:
+   (f) file level: the loader applied to the TEXT the writer lays out returns the response that was written (C11_skr_file_roundtrip; the
+   layout model skr_text is compared with the real writer's output per run), and no two different durations or instants share a written
+   form (C11_duration_text_injective, C11_timestamp_text_injective), so a value that reads back equal was written equal.
+   Modelled rather than proved: the writer's f-strings themselves (tied by Bridge11Doc shapes and by correspondence:
    skr_to_xml -> parse_ksr / response_from_xml on generated responses, ElementTree, schema checker, every prefix). *)
 From Coq Require Import String.
 From KV Require Import Base.Prelude Base.Exn Base.Bytes Model.Data Model.Duration Model.Xml
@@ -95,3 +97,14 @@ Theorem C11_skr_text_reads_as_written : forall uni_word r, shape_ok (skr_shape r
   parse_ksr uni_word (skr_text r) = Done [(nKSR, sval (skr_shape r))].
 Proof. exact skr_text_reads_as_written. Qed.
 Print Assumptions C11_skr_text_reads_as_written.
+
+(* a written form stands for one value only: different durations / instants are never spelled alike *)
+From KV Require Import Proofs.DatetimeProofs.
+Theorem C11_duration_text_injective : forall a b, 0 <= a -> 0 <= b -> timedelta_to_duration a = timedelta_to_duration b -> a = b.
+Proof. exact duration_text_injective. Qed.
+Print Assumptions C11_duration_text_injective.
+
+Theorem C11_timestamp_text_injective : forall a b, min_seconds <= a <= max_seconds -> min_seconds <= b <= max_seconds ->
+  format_seconds a = format_seconds b -> a = b.
+Proof. exact format_seconds_injective. Qed.
+Print Assumptions C11_timestamp_text_injective.
